@@ -23,6 +23,7 @@ META = {
 META["explanation"] += " " + "(ZB-past) in the number formatter no raw access to the stream's buffer is provably at or beyond Length(), or in front of the number being formatted, on some path (definite verdict with one step of path sensitivity; in-range is not decided there). (OUT-def) a kind arm that assigns the pointer out-parameter whose null-ness is the validity signal assigns it on every path through the arm. (NULL-first) a pointer taken from First()/Last()/Storage() of another container is dereferenced only where a dominating test excludes null (two invariant-based exceptions are listed with their reason)."
 META["explanation"] += " " + '(PROG) the same progress rule as C05 over the template scanner, attribute parsers, expression scanner, finder, string utilities and number formatter/scanner loops; the tag loops driven by finder.GetMatch(), pointer-walking loops over tag arrays and the loop-item growth loop are listed as not decided.'
 META["explanation"] += " " + '(PR-subrange) the code that completes an inline-if record compares every sub-tag span with bounds derived from the true and from the false value and the span of the tag with the 16-bit limit, and drops the record otherwise (taint flow inside the arm). BORROW additionally follows references obtained THROUGH an element pointer (tag_bit->GetInLineIfTag()): they die when a member that destroys stored elements (Drop, Clear, Reset, found from the model) is called on the container; facts carry the literal values of boolean locals of their path, so `dropped, skip = true ... if (!skip) use` is not a use.'
+META["explanation"] += " " + "(PR-resync) where a block's content start is taken from a hand-moved cursor the finder is moved to that cursor before it searches on (must-analysis). (NARROW-index) the 8-bit fields of tag records the renderer uses as positions in object arrays (found from the renderer) are stored only after a comparison of the count with the field's range."
 
 ZONE_KEYS = [
     "Qentem::Finder::Next", "Qentem::TemplateCore::parse", "Qentem::TemplateCore::parseLoopAttributes",
@@ -36,6 +37,8 @@ ZONE_KEYS = [
     "Qentem::Digit::HexStringToNumber/3", "Qentem::Digit::FastStringToNumber",
 ]
 
+
+META["explanation"] += " " + '(REC-bound, shared with C05) call-graph rule: every cycle among the functions of Template.hpp that take the text is cut by a call that passes depth + k and is reached only on the true edge of depth < CONST -- parseExpressions/parseValue recurse once per parenthesis and carry such a depth; the recursion of render()/evaluate() runs over the parsed records, whose depth the parser bounds.'
 
 def run(ctx):
     m = ctx.pattern()
@@ -58,14 +61,19 @@ def run(ctx):
     rules["TS-tagbit"] = tagbit_access(ctx, m)
     rules["IDX-ensure"] = loop_item_index(ctx, m)
     rules["SB-loopitem"] = loop_item_fields(ctx, m)
-    from rules.common import rule_inline_if_ranges
+    from rules.common import rule_inline_if_ranges, rule_finder_resync
     rules["PR-subrange"] = rule_inline_if_ranges(ctx, m)
+    rules["PR-resync"] = rule_finder_resync(ctx, m)
+    from rules.common import rule_narrow_index
+    rules["NARROW-index"] = rule_narrow_index(ctx, m)
     from rules.common import rule_stream_past, rule_out_params, rule_null_first
     rules["NULL-first"] = rule_null_first(ctx, m, ["Value.hpp", "Template.hpp", "JSON.hpp", "HArray.hpp", "HList.hpp"])
     rules["ZB-past"] = rule_stream_past(ctx, m)
     rules["OUT-def"] = rule_out_params(ctx, m, ["Value.hpp", "HashTable.hpp", "HArray.hpp", "HList.hpp", "Template.hpp", "Array.hpp"])
     from rules.progress import rule_progress
     rules["PROG"] = rule_progress(ctx, m, CONTRACTS, ["Template.hpp", "Finder.hpp", "StringUtils.hpp", "Digit.hpp", "QExpression.hpp", "Tags.hpp"], floor=55)
+    from rules.common import rule_recursion_bound
+    rules["REC-bound"] = rule_recursion_bound(ctx, m, "Template.hpp")
     return list(rules.values())
 
 
